@@ -35,6 +35,16 @@ def run(c):
     c.cov["unify_pairs"] = {k: s[k] for k in s if k != "crashed"}
     c.cov["inconclusive"] += s["crashes"]
     c.cov["replayed_cases"] += s["calls"]
+    # every operator, stuck below a binder
+    so = vf.tlc_generate("MC_ConvOps", "INIT Init\nNEXT Next\nINVARIANT Emit\nCHECK_DEADLOCK FALSE\n", "convops", timeout=3000, workers=1)
+    c.add_tlc(so, "operator terms below a binder against other operators / operands / normal forms, with the normal-form verdict; generation")
+    tr2, summ2 = os.path.join(d, "trace-ops.ndjson"), os.path.join(d, "summary-ops.json")
+    vf.gv(["record-unify", so["out"], tr2, summ2], timeout=3000)
+    s2 = json.load(open(summ2))
+    c.cov["unify_pairs_operators"] = {k: s2[k] for k in s2 if k != "crashed"}
+    c.cov["inconclusive"] += s2["crashes"]
+    c.cov["replayed_cases"] += s2["calls"]
+    open(tr, "a").write(open(tr2).read())
     tv = vf.validate_trace("Trace_Unify", tr, "c06", chunk_events=800, par=10)
     c.add_trace(tv, "Trace_Unify (conversion pairs)")
     for rj in tv["rejects"]:
